@@ -339,6 +339,9 @@ def fork_map(fn, tasks, workers=None, timeout=900.0, what='task', progress=None)
                 done += 1
                 if progress:
                     progress(done, n)
+                elif n >= 200 and done % max(1, n // 10) == 0:
+                    print("  ... %d/%d %ss done" % (done, n, what), file=sys.stderr)
+                    sys.stderr.flush()
             for r, ent in list(live.items()):
                 if now > ent[3]:
                     raise ChildFailed("%s %d: wall-clock limit %.0fs" % (what, ent[1], timeout))
